@@ -162,7 +162,8 @@ func runC20(c *c20Case) (v *vcommon.Violation, labels map[string]bool) {
 		// bound on the number of tables ever allocated: closed tables that survive compaction hold more
 		// than 0.6*S - e_max live bytes; during a round at most roundBytes/(S-e_max)+1 tables are opened.
 		den := int(0.6*float64(c.TableSize)) - emax
-		maxTables := (peakLive+den-1)/den + (roundBytes+(c.TableSize-emax)-1)/(c.TableSize-emax) + 3
+		// plus the tables opened while compaction moves the live entries, and one each for rounding
+		maxTables := (peakLive+den-1)/den + (roundBytes+(c.TableSize-emax)-1)/(c.TableSize-emax) + (peakLive+(c.TableSize-emax)-1)/(c.TableSize-emax) + 4
 		if st.NumTables > maxTables {
 			return fail("unbounded-tables", "round %d: %d tables allocated (%d bytes) for %d live bytes (peak %d); bound %d tables", round, st.NumTables, st.Allocated, want, peakLive, maxTables), labels
 		}
